@@ -20,13 +20,95 @@ META = {
 }
 
 
+PARAM_CLASSES = ["Drift", "Quadrupole", "Dipole", "RBend", "Solenoid", "HorizontalCorrector", "VerticalCorrector",
+                 "Undulator", "Cavity", "TransverseDeflectingCavity", "Aperture", "Screen", "BPM", "Marker"]
+
+
+def parameter_case(rep, r: dict) -> None:
+    """trainable attributes (`element.k1 = nn.Parameter(...)`, the way gradient-based tuning is set up): the clone has
+    equal values, no shared storage, and in-place changes of either do not reach the other"""
+    import torch
+    from torch import nn
+    from fals import _full as FU
+    dtype = FU.DTYPES[r["dtype"]]
+    el = FU.build_full(r["record"], dtype)
+    cname = type(el).__name__
+    made = []
+    for f in el.defining_features:
+        v = getattr(el, f, None)
+        if isinstance(v, torch.Tensor) and v.is_floating_point() and f in r["trainable"]:
+            try:
+                setattr(el, f, nn.Parameter(v.detach().clone()))
+                made.append(f)
+            except Exception:  # noqa: BLE001  (derived / read-only attribute)
+                pass
+    if not made:
+        return
+    try:
+        cl = el.clone()
+    except Exception as e:  # noqa: BLE001
+        rep.fail("falsifier", f"C15|{cname}.clone|trainable attribute|exception:{type(e).__name__}",
+                 f"{cname}.clone() with nn.Parameter attributes {made} raised {type(e).__name__}: {e}", r)
+        return
+    for f in made:
+        a, b = getattr(el, f), getattr(cl, f)
+        if tuple(a.shape) != tuple(b.shape) or a.dtype != b.dtype or not torch.equal(a.detach(), b.detach()):
+            rep.fail("falsifier", f"C15|{cname}.clone|trainable attribute|value", f"{cname}.{f}: clone has {b.detach().tolist()} ({b.dtype}), original "
+                     f"{a.detach().tolist()} ({a.dtype})", r)
+            return
+        if a.detach().untyped_storage().data_ptr() == b.detach().untyped_storage().data_ptr():
+            rep.fail("falsifier", f"C15|{cname}.clone|trainable attribute|shared-storage", f"{cname}.{f} (an nn.Parameter): the clone shares its "
+                     "tensor storage with the original", r)
+            return
+        before = a.detach().clone()
+        with torch.no_grad():
+            b.add_(1.0)
+        if not torch.equal(a.detach(), before):
+            rep.fail("falsifier", f"C15|{cname}.clone|trainable attribute|not-independent", f"in-place change of clone.{f} changed original.{f}", r)
+            return
+        before = b.detach().clone()
+        with torch.no_grad():
+            a.mul_(0.5)
+        if not torch.equal(b.detach(), before):
+            rep.fail("falsifier", f"C15|{cname}.clone|trainable attribute|not-independent", f"in-place change of original.{f} changed clone.{f}", r)
+            return
+
+
+def parameter_probe(ctx, n: int) -> None:
+    from fals import _full as FU
+    rep, rng = ctx.report, ctx.rng
+    for i in range(n):
+        cls = PARAM_CLASSES[i % len(PARAM_CLASSES)]
+        rec = FU.gen_full(rng, cls, "el", p_set=0.8)
+        dtn = FU.pick(rng, "float64", "float32")
+        try:
+            el = FU.build_full(rec, FU.DTYPES[dtn])
+        except Exception as e:  # noqa: BLE001  (record rejected by the constructor)
+            rep.count(f"rejected:{type(e).__name__}")
+            continue
+        import torch
+        feats = [f for f in el.defining_features if isinstance(getattr(el, f, None), torch.Tensor) and getattr(el, f).is_floating_point()]
+        if not feats:
+            continue
+        train = [f for f in feats if rng.random() < 0.6] or feats[:1]
+        r = {"kind": "trainable", "record": rec, "dtype": dtn, "trainable": train}
+        rep.fals_cases += 1
+        rep.count("probe:trainable:" + cls)
+        try:
+            parameter_case(rep, r)
+        except Exception as e:  # noqa: BLE001  (record rejected by the constructor)
+            rep.count(f"rejected:{type(e).__name__}")
+
+
 def run(ctx) -> None:
-    pass
+    parameter_probe(ctx, ctx.n(28, 400))
     if F is not None:
         F.run(ctx)
 
 
 def corpus_case(ctx, r: dict) -> None:
+    if r.get("kind") == "trainable":
+        return parameter_case(ctx.report, r)
     if F is not None and hasattr(F, "corpus_case"):
         F.corpus_case(ctx, r)
 
